@@ -1,9 +1,7 @@
 //! vcheck — property-based checks C01..C20 for saorsa-core.
 //!   vcheck run <ID> [--tier quick|thorough] [--seed N]
 //!   vcheck replay <file>
-mod engine;
-mod memnet;
-mod props;
+use vcheck::{engine, props};
 
 use engine::{Run, Tier};
 
